@@ -28,6 +28,7 @@ sys.path.insert(0, os.path.join(common.VERIF, "tx"))
 import partition as txpart
 import builders_tree as txbuild
 import rootcover as txroot
+import uniquerows as txuniq
 
 TOL = 1e-9
 SIZE1 = [False]     # set by the probe below: may the generators use one-function (nbas == 1) real basis sets?
@@ -368,6 +369,32 @@ def gen_terms_conserving(rng, reals, nmax):
     return terms
 
 
+ALPHA_TREES = [
+    ("leaf with 3 basis sets", {"nested": {"b": [3], "ch": [{"b": [0, 1, 2], "ch": []}, {"b": [4], "ch": []}]}}, [0, 1, 2]),
+    ("virtual root, leaves (0,1,2) and (3,4)", {"nested": {"b": [-1], "ch": [{"b": [0, 1, 2], "ch": []}, {"b": [3, 4], "ch": []}]}}, [0, 1, 2]),
+    ("2 basis sets and 3 children", {"nested": {"b": [0, 1], "ch": [{"b": [2], "ch": []}, {"b": [3], "ch": []}, {"b": [4], "ch": []}]}}, [0, 1, 2]),
+    ("4 basis sets on the root", {"nested": {"b": [0, 1, 2, 3], "ch": [{"b": [4], "ch": []}]}}, [0, 1, 2, 3]),
+    ("chain of pairs", {"nested": {"b": [0, 1], "ch": [{"b": [2, 3], "ch": [{"b": [4], "ch": []}]}]}}, [1, 2, 3]),
+]
+ALPHA_LETTERS = ["X", "Z", "iY", "+", "-"]
+
+
+def gen_alphabet(rng, aid, nterms, algo):
+    """5 spins, every term a product of random Pauli words (length 1..3: 155 words per spin) on the crowded DoFs"""
+    name, tree, crowd = ALPHA_TREES[aid % len(ALPHA_TREES)]
+    basis = [["spin", "a%d" % i, 2] for i in range(5)]
+    terms = []
+    for _ in range(nterms):
+        ops = []
+        for d in crowd:
+            ops.append([" ".join(rng.choice(ALPHA_LETTERS) for _ in range(rng.randint(1, 3))), "a%d" % d])
+        rest = [d for d in range(5) if d not in crowd]
+        if rest and rng.random() < 0.6:
+            ops.append([rng.choice(ALPHA_LETTERS[:3]), "a%d" % rng.choice(rest)])
+        terms.append([ops, rng.choice([1, 3, 5, -1, -3]), rng.choice([0, 1, 2, 3])])
+    return {"id": aid, "basis": basis, "tree": tree, "algo": algo, "terms": terms, "tree_name": name}
+
+
 def term_coeffs(terms):
     """the term list as a map  frozenset{(dof, symbol-string-on-that-dof)} -> Fraction"""
     out = {}
@@ -432,7 +459,7 @@ def run(ctx):
         broken.append("translator tx/partition.py")
         detail["translator"] = repr(e)
         ctx.obligations.append({"name": "Gen/Partition.v (translator tx/partition.py)", "file": "Gen/Partition.v", "ok": False, "assumptions": None})
-    for mod, rel in ((txbuild, "Gen/TreeBuilders.v"), (txroot, "Gen/RootCover.v")):
+    for mod, rel in ((txbuild, "Gen/TreeBuilders.v"), (txroot, "Gen/RootCover.v"), (txuniq, "Gen/UniqueRows.v")):
         try:
             text2, info2 = mod.main(common.REPO)
             ctx.regen(rel, text2)
@@ -450,7 +477,7 @@ def run(ctx):
     else:
         ctx.obligations.append({"name": "C02 (build of Gen/Partition.v, Model/TreeTopo.v, Model/Ttno.v and their proofs)", "file": "Proofs/TtnoProofs.v", "ok": False, "assumptions": None})
     if tx_ok:
-        for rel in ("Gen/Partition.v", "Gen/TreeBuilders.v", "Gen/RootCover.v"):
+        for rel in ("Gen/Partition.v", "Gen/TreeBuilders.v", "Gen/RootCover.v", "Gen/UniqueRows.v"):
             ctx.obligations.append({"name": rel + " regenerated from the current source and accepted by the proofs", "file": rel, "ok": bool(ok_build), "assumptions": []})
     if not (ok_build and ok_props):
         broken.append("theorem(s): " + ", ".join(o["name"] for o in ctx.obligations if not o["ok"]))
@@ -612,7 +639,30 @@ def run(ctx):
         st0 = rng.choice(gen_history(rng, 0)["steps"])
         scales.append({"id": i, "basis": st0["basis"], "tree": st0["tree"], "terms": st0["terms"],
                        "algo": rng.choice(["Hopcroft-Karp", "Hungarian"]), "k": rng.choice([1, 7, 20, 27, 30, 34, 40, 53, 64, 70])})
-    hres = impl_pool(ctx, "c02_history.py", [{"sequences": seqs[i::nhp], "scales": scales[i::nhp]} for i in range(nhp)], timeout=900)
+    # LARGE-ALPHABET stream: > 255 primary operators, packed row codes > 65535, crowded nodes, hundreds of terms
+    alphas = []
+    for i in range(6 if quick else 30):
+        alphas.append(gen_alphabet(rng, i, rng.randint(450, 700), ["Hopcroft-Karp", "Hungarian", "qr"][i % 3] if i % 5 else "Hopcroft-Karp"))
+    if not quick:      # more terms than a 16-bit counter holds, on a tree
+        alphas.append(gen_alphabet(rng, len(alphas) + 1, 66000, "Hopcroft-Karp"))
+    nap = 6 if quick else 12
+    apay = [{"alphabets": alphas[i::nap]} for i in range(nap) if alphas[i::nap]]
+    hres = impl_pool(ctx, "c02_history.py", [{"sequences": seqs[i::nhp], "scales": scales[i::nhp]} for i in range(nhp)] + apay, timeout=1500)
+    ares = hres[nhp:]
+    hres = hres[:nhp]
+    alpha_bad = []
+    alpha_by_id = {a["id"]: a for a in alphas}
+    for (rc_, res_, out_), pl in zip(ares, apay):
+        if res_ is None:
+            alpha_bad.append({"what": "large-alphabet script failed", "out": (out_ or "")[-1200:], "case": pl["alphabets"][0]})
+            continue
+        for q in res_.get("alphabets", []):
+            ev += 1
+            bump("alphabet:cases")
+            bump("alphabet:distinct words (max)", 0)
+            dist["alphabet:distinct words (max)"] = max(dist["alphabet:distinct words (max)"], q.get("distinct_words", 0))
+            if q["fails"]:
+                alpha_bad.append({"what": "large alphabet", "fails": q["fails"][:3], "case": alpha_by_id[q["id"]]})
     scale_bad = []
     history_bad = []
     seq_by_id = {q["id"]: q for q in seqs}
@@ -742,16 +792,17 @@ def run(ctx):
                     txt.append("Eval vm_compute in run_stables TR%d T%d [%s]." % (ci, ci, "; ".join(sw)))
                 else:
                     txt.append("Eval vm_compute in (nil : list Z).")
+                txt.append("Eval vm_compute in run_unique TR%d T%d WS%d." % (ci, ci, ci))
             files.append(("ttno_%d" % gi, "\n".join(txt) + "\n"))
         outs = coq_eval_pool(ctx, files, timeout=900)
         for gi, grp in enumerate(groups):
             rc_, out_ = outs["ttno_%d" % gi]
             vals = common.parse_Z_lists(out_) if rc_ == 0 else None
-            if vals is None or len(vals) != 7 * len(grp):
+            if vals is None or len(vals) != 8 * len(grp):
                 corr_bad.append({"what": "model evaluation failed", "shard": gi, "out": out_[-1200:]})
                 continue
             for ci, (case, r) in enumerate(grp):
-                bad = compare_case(case, r, vals[7 * ci: 7 * ci + 7])
+                bad = compare_case(case, r, vals[8 * ci: 8 * ci + 8])
                 ev += bad["n"]
                 if bad["bad"]:
                     corr_bad.append({"what": bad["bad"], "case": case, "detail": bad.get("detail")})
@@ -819,6 +870,14 @@ def run(ctx):
                "sys.exit(1 if bad else 0)\n")
         ctx.violation("ttno-history", "dense oracle (history stream): a TTNO built after other constructions in the same process differs from the dense sum of krons of its own local matrices",
                       {"failures": [{k: v for k, v in b.items()} for b in history_bad[:4]]}, found=True, repro=rep)
+    if alpha_bad:
+        src = open(os.path.join(common.VERIF, "harness", "impl", "c02_history.py")).read()
+        ac = alpha_bad[0]["case"]
+        rep = ("C02_INLINE = True\n" + src + "\nres = run_payload(json.loads(" + repr(json.dumps({"alphabets": [ac]})) + "))\n"
+               "bad = [f for q in res['alphabets'] for f in q['fails']]\nprint(bad[:4])\nsys.exit(1 if bad else 0)\n")
+        ctx.violation("ttno-alphabet", "dense oracle (large-alphabet stream): TTNO over hundreds of distinct elementary operators per DoF on crowded nodes differs from the dense sum of krons / raises",
+                      {"failures": [{k: (v if k != "case" else {kk: vv for kk, vv in v.items() if kk != "terms"}) for k, v in b.items()} for b in alpha_bad[:4]]},
+                      found=True, repro=rep)
     if scale_bad:
         src = open(os.path.join(common.VERIF, "harness", "impl", "c02_history.py")).read()
         rep = ("C02_INLINE = True\n" + src + "\nres = run_payload(json.loads(" + repr(json.dumps({"scales": [scale_bad[0]["case"]]})) + "))\n"
@@ -1054,6 +1113,28 @@ def compare_case(case, r, vals):
         return {"n": n + 1, "bad": "comparison crashed: %r" % (e,), "nontrivial": False}
     flags = {}
     try:
+        # ---- the unique-rows step: an index determines the row (row_index_reconstruct), term_row is what np.unique must return
+        rd = Reader(vals[7])
+        for i, st in enumerate(steps + ((r.get("qr") or {}).get("steps") or [])):
+            n += 1
+            tr_, rinv = st.get("term_row"), st.get("row_inverse")
+            if tr_ is None or rinv is None or not st.get("incidence_ok"):
+                return {"n": n, "bad": "unique rows: two terms share one incidence entry / an index is missing", "nontrivial": False, "detail": {"node": i}}
+            for t_, (row, ri) in enumerate(zip(st["trow"], rinv)):
+                if not (0 <= ri < len(tr_)) or tr_[ri] != row:
+                    return {"n": n, "bad": "unique rows: term_row[row_unique_inverse[t]] != table_row[t] (two different rows share an index)", "nontrivial": False,
+                            "detail": {"node": i, "term": t_, "row": row, "index": ri, "term_row_at_index": tr_[ri] if 0 <= ri < len(tr_) else None}}
+            for t_, (col, ci_) in enumerate(zip(st["tcol"], st["col_inverse"])):
+                if not (0 <= ci_ < len(st["term_col"])) or st["term_col"][ci_] != col:
+                    return {"n": n, "bad": "unique columns: term_col[col_unique_inverse[t]] != table_col[t]", "nontrivial": False, "detail": {"node": i, "term": t_}}
+            if tr_ != sorted(set(tuple(x) for x in st["trow"])) and [tuple(x) for x in tr_] != sorted(set(tuple(x) for x in st["trow"])):
+                return {"n": n, "bad": "unique rows: term_row is not the sorted list of distinct rows", "nontrivial": False, "detail": {"node": i}}
+            if i < len(steps):         # the Coq specification of np.unique(axis=0) on the model's table of this node
+                k_ = rd.get()
+                model_rows = [rd.key() for _ in range(k_)]
+                if model_rows != [list(x) for x in tr_]:
+                    return {"n": n, "bad": "unique rows: term_row differs from the specification term_rows (Model/Ttno.v)", "nontrivial": False,
+                            "detail": {"node": i, "model": model_rows[:6], "impl": tr_[:6]}}
         # ---- the root: columns are the U side, the cover is the column (hypothesis of root_factor_one)
         rc = r.get("root_cover") or {}
         n += 1
